@@ -252,6 +252,7 @@ fn alphabet(thorough: bool) -> Vec<TOp> {
         TOp::Put,
         TOp::Del,
         TOp::CasCurrent,
+        TOp::CasAbsent,
         TOp::Advance(5),
         TOp::Advance(10),
         TOp::Cleanup,
@@ -261,7 +262,6 @@ fn alphabet(thorough: bool) -> Vec<TOp> {
     ];
     if thorough {
         v.insert(1, TOp::PutTtl(30));
-        v.insert(5, TOp::CasAbsent);
         v.push(TOp::Advance(25));
     }
     v
